@@ -468,7 +468,16 @@ def _def_expr(q, d, depth, seen):
         return "indirect(%s)" % ", ".join(expr_of(q, a, depth + 1, seen) for a in x["args"])
     if TRANSPARENT.search(path) and x["args"]:
         return expr_of(q, x["args"][0], depth + 1, seen)
-    return "%s(%s)" % (short_callee(path), ", ".join(expr_of(q, a, depth + 1, seen) for a in x["args"]))
+    return "%s%s(%s)" % (short_callee(path), _targ(path, c), ", ".join(expr_of(q, a, depth + 1, seen) for a in x["args"]))
+
+
+def _targ(path, c):
+    """target type of the conversions whose meaning is their type argument (str::parse::<T>)"""
+    if c and re.search(r"str>::parse$|::str::<impl str>::parse$", path):
+        g = c.get("gargs") or []
+        if g:
+            return "<%s>" % g[-1].split("::")[-1]
+    return ""
 
 
 def call_exprs(q, keep=None, drop=PLUMBING):
@@ -483,5 +492,5 @@ def call_exprs(q, keep=None, drop=PLUMBING):
             continue
         if keep is not None and not keep.search(path):
             continue
-        out.append("%s(%s)" % (short_callee(path), ", ".join(expr_of(q, a) for a in t["args"])))
+        out.append("%s%s(%s)" % (short_callee(path), _targ(path, c), ", ".join(expr_of(q, a) for a in t["args"])))
     return out
